@@ -10,6 +10,7 @@ from vlib import Case, Rng
 
 ID = "C11"
 PROPS_MODULE = "AmqModel.Props.C11"
+EXTRA_PROPS_MODULES = ["AmqModel.Props.Handoff"]      # the two sends at the end of a cancel / close against the caller\'s thread, every schedule (finding D15)
 NONTRIVIAL_RULE = "at least one consumer that received a delivery and a terminal message"
 MODEL_SCOPE = "connection_state.rs ConsumeOk / Cancel / CancelOk / Deliver / close arms and their consumer-table updates; the Consumer object (cancelled flag, Drop) is covered by the api engine"
 ASSUMPTIONS = ["A1 amq-protocol parse/gen; A2 FIFO queues"]
@@ -142,8 +143,17 @@ def gen_api(tier, seed):
     return cases
 
 
+def consdrop_monitor(case, il, sl):
+    lines = [l for l in il if l and not l.startswith("#")]
+    if lines == ["cycles ok", "close ok"]:
+        return None
+    return ("consume + drop of the consumer in a loop (schedule sampling, real I/O thread): %s" % lines, "consdrop-lost")
+
+
 def suites(tier, seed):
-    return [Suite("consumers-at-api", "api", lambda: gen_api(tier, seed), monitor=api_monitor, nontrivial=lambda c, il: any(o.startswith("cons ") for o in c.ops), canon=apigen.canon, shards=4, timeout=60,
+    return [Suite("consume-drop-schedules", "consdrop", lambda: [Case("d%d" % i, [o], {"keep_prefix": 0}) for i, o in enumerate(["run 4000 0", "run 4000 0", "run 2000 3", "run 1500 8"] + ([] if tier == "quick" else ["run 40000 0", "run 40000 0", "run 20000 2", "run 10000 16"]))], monitor=consdrop_monitor, nontrivial=lambda c, il: True, compare=False, shards=4, shrink=False, timeout=600,
+                  rule="real connection + I/O thread + scripted broker: consume, then drop the Consumer (its Drop cancels, waits for CancelOk and releases the queue), 1500-4000 times per case (thorough: up to 40 000), with 0-8 busy threads competing for the cores so that the I/O thread is preempted at arbitrary points: every cycle succeeds, a call afterwards succeeds, Connection::close returns Ok (a SAMPLE of schedules, not a proof: the two notifications are one atomic step in the Lean model; finding D15)"),
+            Suite("consumers-at-api", "api", lambda: gen_api(tier, seed), monitor=api_monitor, nontrivial=lambda c, il: any(o.startswith("cons ") for o in c.ops), canon=apigen.canon, shards=4, timeout=60,
                   rule="public API over the real queue ends: consumers created, cancelled, cancelled twice, dropped, dropped by a panic unwinding through their owner: one Basic.Cancel per live consumer, none for a cancelled one; exact diff against the Lean Api model"),
             Suite("idle-consumer-backlog", "machine", lambda: [mg.backlog_cases(Rng(seed + 31), "consumer", 70000)] if tier == "quick" else [mg.backlog_cases(Rng(seed + 31), "consumer", 70000, prefix="big"), mg.backlog_cases(Rng(seed + 32), "consumer", 12000)], monitor=monitor, nontrivial=lambda c, il: True, canon=mg.canon_nondet, shrink=False, compare=(tier != "quick"), canon_skip_model=("big",), timeout=600,
                   rule="a consumer with 70 000 unread deliveries is cancelled by the server: after the 70 000 deliveries exactly one terminal message, then disconnected (quick: monitor only; thorough: also diffed against the model)"),
